@@ -434,6 +434,7 @@ class RTCMMessage:
         """
 
         try:
-            return "MSM" in RTCM_MSGIDS[self.identity]
+            # reserved MSM numbers have no payload definition (parsed as stub)
+            return "MSM" in RTCM_MSGIDS[self.identity] and not self._unknown
         except KeyError:
             return False
